@@ -69,6 +69,17 @@ Proof.
   destruct H as (H1 & H2 & H3 & H4 & _). repeat split; auto; lia.
 Qed.
 
+(** bound on the sequence duration: _Schedule.max_duration *)
+Definition le_opt (t : Z) (m : option Z) : Prop :=
+  match m with Some x => t <= x | None => True end.
+Definition env_ok (e : env) : Prop := le_opt 0 (en_max e).
+
+Lemma check_duration_ok e t : check_duration e t true = Ok tt -> le_opt t (en_max e).
+Proof.
+  unfold check_duration, le_opt. destruct (en_max e) as [m|]; auto.
+  destruct (t >? m) eqn:E; cbn; [discriminate|lia].
+Qed.
+
 (** * Tiling of one channel timeline (slots newest first) *)
 Definition len_ok (g : ccfg) (s : slot) : Prop :=
   match s_kind s with
@@ -114,8 +125,12 @@ Proof.
 Qed.
 
 (** * Channel and schedule extension *)
+Section WithEnv.
+Variable e : env.
+
 Definition chan_ok (c : chan) : Prop :=
-  cfg_ok (ch_cfg c) /\ tiled (ch_cfg c) (ch_slots c).
+  cfg_ok (ch_cfg c) /\ tiled (ch_cfg c) (ch_slots c) /\
+  Forall (fun sl => le_opt (s_tf sl) (en_max e)) (ch_slots c).
 
 Definition chan_ext (c c' : chan) : Prop :=
   ch_name c' = ch_name c /\ ch_id c' = ch_id c /\ ch_cfg c' = ch_cfg c /\
@@ -200,7 +215,7 @@ Definition fits (c : chan) (sl : slot) : Prop :=
   | last :: _ =>
       s_ti sl = s_tf last /\ s_ti sl <= s_tf sl /\
       (c_clock (ch_cfg c) | s_tf sl) /\ len_ok (ch_cfg c) sl
-  end.
+  end /\ le_opt (s_tf sl) (en_max e).
 
 Lemma push_ext c sl :
   fits c sl -> chan_ext c (set_slots c (sl :: ch_slots c)).
@@ -208,8 +223,9 @@ Proof.
   intros Hf. unfold chan_ext, set_slots; cbn.
   split; [|split; [|split; [|split; [|split]]]]; auto.
   - exists [sl]. reflexivity.
-  - unfold chan_ok; cbn. intros [Hg Ht]. split; auto.
-    unfold fits in Hf. destruct (ch_slots c) as [|last r].
+  - unfold chan_ok; cbn. intros (Hg & Ht & Hb). destruct Hf as [Hf Hle].
+    split; [auto|]. split; [|constructor; auto].
+    destruct (ch_slots c) as [|last r].
     + cbn. auto.
     + destruct Hf as (F1 & F2 & F3 & F4). apply tiled_push; auto.
 Qed.
@@ -236,14 +252,14 @@ Lemma bind_inv {S A B} (m : M S A) (f : A -> M S B) s s' r :
   (exists s1 a, m s = (s1, Ok a) /\ f a s1 = (s', r)) \/
   (exists e, m s = (s', Err e) /\ r = Err e).
 Proof.
-  unfold bind. destruct (m s) as [s1 [a|e]]; intros H.
+  unfold bind. destruct (m s) as [s1 [a|er]]; intros H.
   - left. eauto.
   - right. inv H. eauto.
 Qed.
 
 Lemma ret_inv {S A} (a : A) (s s' : S) r : ret a s = (s', r) -> s' = s /\ r = Ok a.
 Proof. unfold ret; intros H; inv H; auto. Qed.
-Lemma fail_inv {S A} e (s s' : S) (r : res A) : fail e s = (s', r) -> s' = s /\ r = Err e.
+Lemma fail_inv {S A} er (s s' : S) (r : res A) : fail er s = (s', r) -> s' = s /\ r = Err er.
 Proof. unfold fail; intros H; inv H; auto. Qed.
 Lemma lift_inv {S A} (x : res A) (s s' : S) r : lift x s = (s', r) -> s' = s /\ r = x.
 Proof. unfold lift; intros H; inv H; auto. Qed.
@@ -264,7 +280,7 @@ Lemma last_slot_inv n s s' r :
             | Err _ => True end.
 Proof.
   unfold last_slot. intros H. apply bind_inv in H.
-  destruct H as [(s1 & c & H1 & H2) | (e & H1 & ->)].
+  destruct H as [(s1 & c & H1 & H2) | (er & H1 & ->)].
   - apply the_chan_inv in H1. destruct H1 as [-> Hc].
     destruct (ch_slots c) as [|l rest] eqn:Hs.
     + apply fail_inv in H2. destruct H2 as [-> ->]. auto.
@@ -281,19 +297,19 @@ Qed.
 (** decompose [H : bind m f s = (s', r)] *)
 Tactic Notation "mbind" hyp(H) ident(s1) ident(a) ident(H1) :=
   apply bind_inv in H;
-  let e := fresh "e" in
-  destruct H as [(s1 & a & H1 & H) | (e & H1 & ->)].
+  let er := fresh "er" in
+  destruct H as [(s1 & a & H1 & H) | (er & H1 & ->)].
 
 (** same, when the result is known to be [Ok _]: only the success branch remains *)
 Tactic Notation "mbindok" hyp(H) ident(s1) ident(a) ident(H1) :=
   apply bind_inv in H;
-  let e := fresh "e" in
+  let er := fresh "er" in
   let Hr := fresh "Hr" in
-  destruct H as [(s1 & a & H1 & H) | (e & H1 & Hr)]; [|discriminate Hr].
+  destruct H as [(s1 & a & H1 & H) | (er & H1 & Hr)]; [|discriminate Hr].
 
 (** * Schedule-level operations only extend, and extend correctly *)
 
-Lemma add_delay_sx e d n s s' r :
+Lemma add_delay_sx d n s s' r :
   Forall chan_ok s -> add_delay e d n s = (s', r) -> sx s s'.
 Proof.
   intros Hok H. unfold add_delay in H.
@@ -303,7 +319,8 @@ Proof.
   rewrite Hc in H2. inv H2.
   mbind H s3 d' H3; apply lift_inv in H3; destruct H3 as [-> H3]; [|apply sx_refl].
   mbind H s4 u H4; apply lift_inv in H4; destruct H4 as [-> H4]; [|apply sx_refl].
-  pose proof (find_chan_ok _ _ _ Hok Hc) as [Hg Ht].
+  pose proof (find_chan_ok _ _ _ Hok Hc) as (Hg & Ht & Hbd).
+  symmetry in H4. destruct u. apply check_duration_ok in H4.
   symmetry in H3. apply validate_duration_spec in H3; auto.
   destruct H3 as (V1 & V2 & V3 & V4 & _).
   rewrite Hs in Ht. pose proof (tiled_head_tf _ _ _ Ht) as [Hn Hd].
@@ -358,7 +375,7 @@ Qed.
 
 Lemma pure_ret {A} (a : A) : pure_m (ret a : SM A).
 Proof. intros s s' r H. apply ret_inv in H. tauto. Qed.
-Lemma pure_fail {A} e : pure_m (fail e : SM A).
+Lemma pure_fail {A} er : pure_m (fail er : SM A).
 Proof. intros s s' r H. apply fail_inv in H. tauto. Qed.
 Lemma pure_lift {A} (x : res A) : pure_m (lift x : SM A).
 Proof. intros s s' r H. apply lift_inv in H. tauto. Qed.
@@ -377,13 +394,13 @@ Proof.
   - eapply Hm; eauto.
 Qed.
 
-Global Hint Resolve pure_ret pure_fail pure_lift pure_get pure_the_chan
+#[local] Hint Resolve pure_ret pure_fail pure_lift pure_get pure_the_chan
   pure_last_slot pure_safe : msafe.
 
-Lemma safe_add_delay e d n : safe (add_delay e d n).
+Lemma safe_add_delay d n : safe (add_delay e d n).
 Proof. intros s s' r Hok H. eapply add_delay_sx; eauto. Qed.
 
-Lemma safe_wait_for_fall e n : safe (wait_for_fall e n).
+Lemma safe_wait_for_fall n : safe (wait_for_fall e n).
 Proof.
   unfold wait_for_fall. apply safe_bind; [auto with msafe|]. intros c.
   destruct (_ >? 0).
@@ -392,7 +409,7 @@ Proof.
 Qed.
 
 (** what a successful add_delay leaves at the end of the channel *)
-Lemma add_delay_ok e d n s s' :
+Lemma add_delay_ok d n s s' :
   add_delay e d n s = (s', Ok tt) ->
   exists c lst rest d' k,
     find_chan n s = Some c /\ ch_slots c = lst :: rest /\
@@ -444,7 +461,7 @@ Definition pulse_fits (g : ccfg) (p : pulse) : Prop :=
 
 (** make_next_pulse_slot is read-only and places the pulse after an
     admissible delay *)
-Lemma mnps_spec e p n barriers proto dp block s s' r :
+Lemma mnps_spec p n barriers proto dp block s s' r :
   Forall chan_ok s ->
   make_next_pulse_slot e p n barriers proto dp block s = (s', r) ->
   s' = s /\
@@ -456,7 +473,8 @@ Lemma mnps_spec e p n barriers proto dp block s s' r :
         s_kind sl = KPulse p' /\ p_dur p' = p_dur p /\
         s_ti sl = s_tf lst + dd /\ s_tf sl = s_ti sl + p_dur p /\
         s_tg sl = s_tg lst /\
-        (dd = 0 \/ (c_min (ch_cfg c) <= dd /\ (c_clock (ch_cfg c) | dd)))
+        (dd = 0 \/ (c_min (ch_cfg c) <= dd /\ (c_clock (ch_cfg c) | dd))) /\
+        (block = true -> le_opt (s_tf sl) (en_max e))
   end.
 Proof.
   intros Hok H. unfold make_next_pulse_slot in H.
@@ -475,7 +493,7 @@ Proof.
                   (fold_max barriers (s_tf lst))) as G2.
     destruct (last_pulse_slot true (ch_slots c')) as [[lps lp]|]; [|inv EX; lia].
     destruct (f_ne _ _); inv EX; lia. }
-  pose proof (find_chan_ok _ _ _ Hok Hc) as [Hg Ht].
+  pose proof (find_chan_ok _ _ _ Hok Hc) as (Hg & Ht & Hbd).
   mbind H s4 dd' H4.
   2:{ destruct (_ >? 0).
       - apply lift_inv in H4. tauto.
@@ -491,6 +509,14 @@ Proof.
   mbind H s5 u H5; apply lift_inv in H5; destruct H5 as [-> H5]; [|auto].
   apply ret_inv in H. destruct H as [-> ->]. split; auto.
   eexists c', lst, rest, dd', _. cbn.
-  repeat (split; [eauto|]); auto.
-  destruct dp; reflexivity.
+  split; [eauto|]. split; [eauto|]. split; [reflexivity|].
+  split; [cbn; destruct dp; reflexivity|].
+  split; [reflexivity|]. split; [reflexivity|]. split; [reflexivity|].
+  split; [exact Hdd|].
+  intros ->. destruct u. symmetry in H5.
+  apply check_duration_ok in H5. exact H5.
 Qed.
+
+End WithEnv.
+#[global] Hint Resolve pure_ret pure_fail pure_lift pure_get pure_the_chan
+  pure_last_slot pure_safe : msafe.
